@@ -305,6 +305,13 @@ func decodeLit(s string) any {
 		// a placeholder no encoder accepts (a func passed by mistake: `Placeholder(time.Now)`)
 		return func() {}
 	}
+	// composite placeholders whose elements are Go INTEGERS (a literal decoded from JSON text only has float64)
+	if s == `"@bigints"` {
+		return []int64{9007199254740993, 7}
+	}
+	if s == `"@intmap"` {
+		return map[string]any{"version": 3, "big": int64(9007199254740993), "ids": []int{1, 2}}
+	}
 	var v any
 	if err := json.Unmarshal([]byte(s), &v); err != nil {
 		panic("bad literal " + s)
